@@ -151,10 +151,6 @@ func c10Builder(c *Ctx, fn *ssa.Function, copySites []ssa.Instruction) {
 		if s, isConst := ConstString(hk); isConst && !strings.EqualFold(s, "Authorization") {
 			continue
 		}
-		if len(passHost) == 0 {
-			c.Bad("R1", key, p.InstrPos(site), "no comparison of the two requests' URL.Host (host:port) guards the header copy: Authorization is carried to another host or port")
-			continue
-		}
 		// assume the key being copied is Authorization
 		assume := func(v ssa.Value) (*ssa.Const, bool) {
 			op, x, y, ok := BinCmp(v)
@@ -172,6 +168,35 @@ func c10Builder(c *Ctx, fn *ssa.Function, copySites []ssa.Instruction) {
 			return nil, false
 		}
 		reached := false
+		// the same-host test may be folded into a flag (`drop := key == "Authorization" && !sameHost`): under the
+		// assumption above the φ stands for the host test on this path, so conditions are also matched after
+		// resolving them against the path state
+		dynHits := 0
+		oldHook := dynCutHook
+		dynCutHook = func(b *ssa.BasicBlock, idx int, st PState) bool {
+			ifi, ok := lastInstr(b).(*ssa.If)
+			if !ok {
+				return false
+			}
+			rc := ResolveCond(ifi.Cond, st, 0)
+			if rc == ifi.Cond {
+				return false
+			}
+			cond, flip := stripNot(rc)
+			passWhen, ok := hostEq(cond)
+			if !ok {
+				return false
+			}
+			if flip {
+				passWhen = !passWhen
+			}
+			if (idx == 0) == passWhen {
+				dynHits++
+				return true
+			}
+			return false
+		}
+		defer func() { dynCutHook = oldHook }()
 		ExploreX(entry, nil, nil, nil, EdgeSet(passHost), assume, func(in ssa.Instruction, st PState) bool {
 			if in == site {
 				reached = true
@@ -182,6 +207,11 @@ func c10Builder(c *Ctx, fn *ssa.Function, copySites []ssa.Instruction) {
 			}
 			return true
 		})
+		dynCutHook = oldHook
+		if len(passHost) == 0 && dynHits == 0 {
+			c.Bad("R1", key, p.InstrPos(site), "no comparison of the two requests' URL.Host (host:port) guards the header copy: Authorization is carried to another host or port")
+			continue
+		}
 		c.Check(!reached, "R1", key, p.InstrPos(site), "an Authorization header is copied to the redirected request only when both URLs have the same host:port",
 			"an Authorization header can be copied onto the redirected request without the same-host (host:port) test having passed")
 	}
@@ -198,31 +228,19 @@ func c10Builder(c *Ctx, fn *ssa.Function, copySites []ssa.Instruction) {
 		r, ok := urlFieldOfRequest(x, "Scheme")
 		return ok && (r == ssa.Value(oldReq)) == old
 	}
-	var cut []Edge
 	nA, nB := 0, 0
-	for _, b := range fn.Blocks {
-		ifi, ok := lastInstr(b).(*ssa.If)
-		if !ok {
-			continue
-		}
-		cond, flip := stripNot(ifi.Cond)
+	// φ-aware: `downgrade := a && b; if downgrade` and switch cases evaluate the conjunction as a value
+	cut := PassEdges(fn, func(cond ssa.Value) (bool, bool) {
 		if isScheme(cond, "https", true) {
 			nA++
-			e := Edge{b, 1}
-			if flip {
-				e = Edge{b, 0}
-			}
-			cut = append(cut, e)
+			return false, true
 		}
 		if isScheme(cond, "http", false) {
 			nB++
-			e := Edge{b, 1}
-			if flip {
-				e = Edge{b, 0}
-			}
-			cut = append(cut, e)
+			return false, true
 		}
-	}
+		return false, false
+	})
 	for _, r := range ReturnsOf(fn) {
 		if IsNilConst(r.Results[0]) {
 			continue
